@@ -30,6 +30,7 @@ type Conf struct {
 	KeyPEM      string            `json:"key_pem"`
 	ExitMarker  string            `json:"exit_marker"` // file written by deferred plugin code when Serve returns
 	ExitDelayMs int               `json:"exit_delay_ms"`
+	InitDelayMs int               `json:"init_delay_ms"` // the plugin's registration hook takes this long
 	Test        bool              `json:"test"`
 	Impostor    string            `json:"impostor"` // see impostor.go
 }
@@ -55,6 +56,7 @@ func main() {
 		impostor(&c)
 		return
 	}
+	kv.InitDelay = time.Duration(c.InitDelayMs) * time.Millisecond
 	impl := &kv.Impl{}
 	sc := &plugin.ServeConfig{HandshakeConfig: plugin.HandshakeConfig{MagicCookieKey: c.CookieKey, MagicCookieValue: c.CookieValue}}
 	if c.Legacy >= 0 {
